@@ -176,11 +176,12 @@ impl<'tcx> HirX<'tcx> {
         o.done()
     }
 
-    fn collect_leaves(&self, e: &hir::Expr<'tcx>, out: &mut Vec<J>) {
+    fn collect_leaves(&self, e: &hir::Expr<'tcx>, out: &mut Vec<J>, tmpl: &mut Vec<J>) {
         // maximal user-written sub-expressions of a macro expansion
         struct V<'a, 'tcx> {
             x: &'a HirX<'tcx>,
             out: &'a mut Vec<J>,
+            tmpl: &'a mut Vec<J>,
         }
         impl<'a, 'tcx> hir::intravisit::Visitor<'tcx> for V<'a, 'tcx> {
             type NestedFilter = rustc_middle::hir::nested_filter::OnlyBodies;
@@ -191,11 +192,18 @@ impl<'tcx> HirX<'tcx> {
                 if !e.span.from_expansion() {
                     self.out.push(self.x.expr(e));
                 } else {
+                    // format_args! templates are lowered to a byte-string program / string pieces
+                    if let hir::ExprKind::Lit(l) = e.kind {
+                        match &l.node {
+                            rustc_ast::LitKind::ByteStr(..) | rustc_ast::LitKind::Str(..) => self.tmpl.push(lit_j(&l)),
+                            _ => {}
+                        }
+                    }
                     hir::intravisit::walk_expr(self, e);
                 }
             }
         }
-        let mut v = V { x: self, out };
+        let mut v = V { x: self, out, tmpl };
         // SAFETY of lifetimes: e lives in the 'tcx arena.
         let e: &'tcx hir::Expr<'tcx> = unsafe { std::mem::transmute(e) };
         hir::intravisit::walk_expr(&mut v, e);
@@ -240,11 +248,13 @@ impl<'tcx> HirX<'tcx> {
         // collapse well-known macros
         if let Some(name) = self.known_macro(e.span) {
             let mut leaves = Vec::new();
-            self.collect_leaves(e, &mut leaves);
+            let mut tmpl = Vec::new();
+            self.collect_leaves(e, &mut leaves, &mut tmpl);
             return J::obj()
                 .fs("k", "MacroCall")
                 .fs("name", name)
                 .f("leaves", J::A(leaves))
+                .f("tmpl", J::A(tmpl))
                 .fs("ty", fmt_ty(self.tr.expr_ty(e)))
                 .fs("sp", span_str(self.tcx, e.span))
                 .done();
